@@ -43,6 +43,7 @@ func (vc *VC) callByName(fr *Frame, st *State, name string, call *ssa.CallCommon
 
 // externEffects: heaps an extern call may modify (for loop havoc).
 func (vc *VC) externEffects(name string, cc *ssa.CallCommon) []locTarget {
+	vc.effCall = cc
 	if c, ok := vc.w.IfaceContracts[name]; ok {
 		return vc.contractAssignNames(c)
 	}
